@@ -4,3 +4,4 @@ import Model.Log
 import Model.Iterator
 import Model.Loaders
 import Model.Spec
+import Model.System
